@@ -174,6 +174,37 @@ fn judge_with(pairs: bool) -> impl Fn(&Prog, &mut Ctx) + Sync + Send {
             }
             ctx.sample();
         }
+        // (g) the way the listing was typed does not matter: a direct statement executed between the lines
+        // (which compiles what is there so far), or lines typed in reverse order, give the same program
+        {
+            let lines = p.render();
+            let desc = format!("{} typed with a direct statement after every line / in reverse order, then RUN", p.text());
+            if lines.len() >= 2 && ctx.begin(&desc) {
+                let plain = session_text(&lines, &run, &replies());
+                let mut inter: Vec<String> = vec![];
+                for l in &lines {
+                    inter.push(l.clone());
+                    inter.push("Z9=0".to_string());
+                }
+                inter.push("RUN".to_string());
+                let a = session_text(&[], &inter, &replies());
+                let mut rev: Vec<String> = lines.iter().rev().cloned().collect();
+                rev.insert(1, "Z9=0".to_string());
+                rev.push("RUN".to_string());
+                let b = session_text(&[], &rev, &replies());
+                // (the prompts after the silent direct statements are not part of the comparison)
+                let unprompt = |r: Result<(String, bool), String>| r.map(|(t, c)| (t.replace("\u{1}READY\u{2}", ""), c));
+                match (unprompt(plain), unprompt(a), unprompt(b)) {
+                    (Ok(pl), Ok(a), Ok(b)) => {
+                        if !same_or_prefix(&pl, &a) || !same_or_prefix(&pl, &b) {
+                            ctx.violation("typing-history/transcript-differs", format!("typed plainly {:?}, with direct statements in between {:?}, in reverse order {:?}", pl, a, b));
+                        }
+                        ctx.nontrivial(hash64(&("typing", &pl.0)));
+                    }
+                    _ => ctx.skip("panic (C03's business)"),
+                }
+            }
+        }
         // (f) a layout-only edit between two direct statements that read DATA: the read pointer is not moved by it
         if let Some(last) = p.lines.last() {
             let d = &last.stmts;
@@ -215,6 +246,14 @@ fn judge_with(pairs: bool) -> impl Fn(&Prog, &mut Ctx) + Sync + Send {
                     bigger.push("45 PRINT \"zz\"".into());
                     let b = session_text(&stored.render(), &direct, &replies());
                     let c = session_text(&bigger, &direct, &replies());
+                    // ... and over a stored program that does not even link: the direct statement never enters it
+                    let faulty = vec!["45 GOTO 46".to_string(), "47 WHILE 1".to_string()];
+                    let e = session_text(&faulty, &direct, &replies());
+                    if let (Ok(a), Ok(e)) = (&a, &e) {
+                        if !same_or_prefix(a, e) {
+                            ctx.violation("stored-program-size/transcript-differs", format!("empty store {:?}, over a program with link errors {:?}", a, e));
+                        }
+                    }
                     match (a, b, c) {
                         (Ok(a), Ok(b), Ok(c)) => {
                             if !same_or_prefix(&a, &b) || !same_or_prefix(&a, &c) {
